@@ -56,9 +56,15 @@ C02Causal(H, c, S) ==
                  \* (taken on the memo-free times: which member ends last is a fact about the circuit, not about what an
                  \* earlier query left in the memo -- stale reports are C03's business)
                  (LET EndC(m) == IF m \in DOMAIN S.leaves THEN S.leaves[m].start_c + S.leaves[m].dur_v ELSE S.comps[m].start_c + S.comps[m].dur_c
-                      mx == MaxOf({EndC(m) : m \in Range(L.refs)}) IN
-                  When(\E m \in Range(L.refs) : EndC(m) = mx /\ Before(H, S, m, i),
-                       Fail("C02.causal.multi", i, L.refs)))
+                      mx == MaxOf({EndC(m) : m \in Range(L.refs)})
+                      \* named deviation S13: the members listed too late are closing annotations (coordinate shift, barrier) of the
+                      \* previous block; among the other members a latest-ending one is listed first
+                      Ann(m) == m \in DOMAIN S.leaves /\ S.leaves[m].kind \in {"CoordinateShiftOperation", "Barrier"}
+                      rest == {m \in Range(L.refs) : ~Ann(m)}
+                      mr == IF rest = {} THEN 0 ELSE MaxOf({EndC(m) : m \in rest})
+                      shiftOnly == rest # {} /\ \E m \in rest : EndC(m) = mr /\ Before(H, S, m, i)
+                  IN When(\E m \in Range(L.refs) : EndC(m) = mx /\ Before(H, S, m, i),
+                          Fail(IF shiftOnly THEN "C02.causal.multi.shift_moved" ELSE "C02.causal.multi", i, L.refs)))
            [] OTHER -> {}
          : i \in T \ {c}}
 
